@@ -317,6 +317,15 @@ def query_mutations(fns):
     return out
 
 
+def unrestricted_cursors(prog, rep, rule):
+    """no query cursor is restricted (match limit, byte/point range, depth, timeout): shared by C03.C and C12.T"""
+    for f, t in restricted_cursor_calls(prog.fns.values()):
+        rep.violation(rule, "%s :: %s" % (f.id, callee_fn(t)["def"].rsplit("::", 1)[-1]), sp_str(t["sp"]),
+                      "the query cursor is restricted: matches outside the limit (or after the timeout) are silently not reported")
+    rep.control(rule, prog.control is not None and {callee_fn(t)["def"].rsplit("::", 1)[-1] for _f, t in restricted_cursor_calls(prog.control.fns.values())} >= {"set_match_limit", "set_byte_range"},
+                "planted set_match_limit / set_byte_range calls are reported")
+
+
 def capture_and_cursor(prog, rep):
     """C03.C: capture evaluation shape and unrestricted query cursors (shared with C01 and C08)"""
     tg = Tagger(prog)
@@ -336,10 +345,7 @@ def capture_and_cursor(prog, rep):
             ok = a[0].endswith("arg:exec.graph") and re.match(r"^QueryMatch::nodes_for_capture_index\(&\*\*arg:exec\.mat, cast\(\*arg:self\.(stanza|file)_capture_index\)\)$", a[1]) is not None and a[2] == "*arg:self.quantifier"
             detail = str(a)[:200]
         rep.check(ok, "C03.C", "%s :: capture evaluation" % f.id, f.loc(), "from_nodes(graph, mat.nodes_for_capture_index(idx), self.quantifier)", "a capture is not evaluated from tree-sitter's own node iterator for that capture index: " + detail)
-    for f, t in restricted_cursor_calls(prog.fns.values()):
-        rep.violation("C03.C", "%s :: %s" % (f.id, callee_fn(t)["def"].rsplit("::", 1)[-1]), sp_str(t["sp"]), "the query cursor is restricted: matches outside the limit are silently not reported")
-    rep.control("C03.C", prog.control is not None and {callee_fn(t)["def"].rsplit("::", 1)[-1] for _f, t in restricted_cursor_calls(prog.control.fns.values())} >= {"set_match_limit", "set_byte_range"},
-                "planted set_match_limit / set_byte_range calls are reported")
+    unrestricted_cursors(prog, rep, "C03.C")
     ncur = sum(1 for f in prog.fns.values() if f.body is not None for b, t in f.body.calls() if is_callee(t, r"tree_sitter::QueryCursor::new$"))
     rep.floor("C03.C", ncur, 2, "query cursors")
 
